@@ -104,7 +104,7 @@ Definition plain_after (p0 : plain) (groups : list (list txout)) : plain :=
   h_plain (hist_run (h0 p0) (flat groups)).
 
 Definition HistOK (p0 : plain) (groups : list (list txout)) : Prop :=
-  plain_wf p0 /\ hist_ok (h0 p0) (flat groups) = true.
+  plain_wf p0 /\ plain_nocode p0 /\ hist_ok (h0 p0) (flat groups) = true.
 
 (* the bundle the implementation builds: per group, add every transaction's transitions to
    the TransitionState, then merge it into the bundle *)
